@@ -433,6 +433,9 @@ func newSite(pos token.Pos, fn, kind string) ast.Stmt {
 	if kind == "lockheld" {
 		arg = fmt.Sprintf("%d|0x%x", id, uint32(lockFlag))
 	}
+	if kind == "lockreleased" {
+		arg = fmt.Sprintf("%d|0x%x", id, uint32(atomicFlag))
+	}
 	return &ast.ExprStmt{X: &ast.CallExpr{
 		Fun:  &ast.Ident{Name: "verifStep"},
 		Args: []ast.Expr{&ast.BasicLit{Kind: token.INT, Value: arg}},
@@ -529,7 +532,12 @@ func rewriteSync(s ast.Stmt, fn string) ast.Stmt {
 		if sel.Sel.Name == "RUnlock" {
 			kind = 3
 		}
-		return &ast.BlockStmt{List: []ast.Stmt{s, lockEvent(kind, sel.X, len(sites))}}
+		// the moment right after a release is a synchronisation event too:
+		// whatever the caller learned inside the critical section may be stale
+		// by the time it enters the next one (check-then-act across two
+		// critical sections)
+		ev := lockEvent(kind, sel.X, len(sites))
+		return &ast.BlockStmt{List: []ast.Stmt{s, ev, newSite(s.Pos(), fn, "lockreleased")}}
 	case sel.Sel.Name == "Do" && len(call.Args) == 1:
 		body := &ast.BlockStmt{List: []ast.Stmt{
 			stepCall(siteNoYieldEnter),
